@@ -149,6 +149,8 @@ pub enum PTy {
     CallbackArray(u8),
     /// `int (*const name)(int, double)`: const-qualified callback
     ConstCallback,
+    /// `const td_T name[n]`: array parameter of a const-qualified typedef'd element (decays to `const td_T *`)
+    ConstArrayTypedef(Sc, u8),
 }
 
 #[derive(Clone, Debug, Serialize, Deserialize, PartialEq, Eq)]
@@ -218,6 +220,7 @@ const FLAG_GROUPS: &[&[&str]] = &[
     &["--rust-target", "1.64"],
     &["--wrap-unsafe-ops"],
     &["--enable-function-attribute-detection"],
+    &["--generate-inline-functions"],
 ];
 
 impl Lib {
@@ -266,7 +269,7 @@ impl Lib {
             for p in f.params.iter_mut() {
                 match p {
                     PTy::PtrStruct(k, _) | PTy::Struct(k) => fix(k),
-                    PTy::ArrayParam(_, n) | PTy::PtrToArray(_, n) | PTy::CallbackArray(n) => *n = (*n % 5) + 1,
+                    PTy::ArrayParam(_, n) | PTy::PtrToArray(_, n) | PTy::CallbackArray(n) | PTy::ConstArrayTypedef(_, n) => *n = (*n % 5) + 1,
                     PTy::Array2D(_, a, b) => {
                         *a = (*a % 3) + 1;
                         *b = (*b % 4) + 1;
@@ -361,6 +364,7 @@ impl Lib {
             PTy::PtrToArray(s, len) => format!("{} (*{n})[{len}]", s.c()),
             PTy::CallbackArray(k) => format!("int (*{n}[{k}])(int, double)"),
             PTy::ConstCallback => format!("int (*const {n})(int, double)"),
+            PTy::ConstArrayTypedef(s, len) => format!("const td_{} {n}[{len}]", s.c().replace(' ', "_")),
         }
     }
     fn c_ret(&self, r: &RTy) -> String {
@@ -427,7 +431,7 @@ impl Lib {
                             s.push_str(&format!("  h = step(h, {});\n", sc.c_canon(&format!("{n}{path}"))));
                         }
                     }
-                    PTy::ArrayParam(sc, len) => {
+                    PTy::ArrayParam(sc, len) | PTy::ConstArrayTypedef(sc, len) => {
                         for j in 0..*len {
                             s.push_str(&format!("  h = step(h, {});\n", sc.c_canon(&format!("{n}[{j}]"))));
                         }
@@ -527,6 +531,8 @@ impl Lib {
         if self.defined_global {
             s.push_str("int g_defined = 3;\n");
         }
+        // functions without a symbol: they must never be bound (unless wrappers are requested)
+        s.push_str("static inline int lib_local_inline(int x) { return x * 2 + 1; }\nstatic int lib_local_static(int x) { return x - 1; }\n");
         for k in 0..self.funcs.len() {
             s.push_str(&self.proto(k));
             match self.funcs[k].asm_label {
@@ -586,6 +592,7 @@ pub fn lib_strategy() -> BoxedStrategy<Lib> {
         1 => (sc.clone(), 0u8..5).prop_map(|(s, n)| PTy::PtrToArray(s, n)),
         1 => (0u8..5).prop_map(PTy::CallbackArray),
         1 => Just(PTy::ConstCallback),
+        1 => (sc.clone(), 0u8..5).prop_map(|(s, n)| PTy::ConstArrayTypedef(s, n)),
     ];
     let rty = prop_oneof![2 => Just(RTy::Void), 6 => sc.clone().prop_map(RTy::Sc), 4 => any::<u16>().prop_map(RTy::Struct), 1 => Just(RTy::Enum), 1 => Just(RTy::Ptr), 1 => Just(RTy::FnPtr)];
     let func = (proptest::collection::vec(pty, 0..9), rty, proptest::option::weighted(0.12, 0u8..7), proptest::bool::weighted(0.03), proptest::option::weighted(0.12, any::<u8>()), proptest::bool::weighted(0.15), proptest::bool::weighted(0.15), proptest::option::weighted(0.12, 0u8..2))
@@ -810,6 +817,16 @@ impl C04 {
                         PTy::CallbackFactory => {
                             s.push_str("    h = step(h, (the_cb((h & 0xffff) as ::std::os::raw::c_int, 2.5) as i64) as u64);\n");
                             args.push("Some(the_factory)".into());
+                        }
+                        PTy::ConstArrayTypedef(sc, len) => {
+                            // the binding must take a pointer to const: an immutable array's `as_ptr()` is all the caller has
+                            s.push_str(&format!("    let mut {a}: [{}; {len}] = unsafe {{ ::std::mem::zeroed() }};\n", sc.rust()));
+                            for j in 0..*len {
+                                let w = word(&mut st);
+                                s.push_str(&format!("    {a}[{j}] = {}; h = step(h, {});\n", sc.rust_from(&format!("{w}u64")), sc.rust_canon(&format!("{a}[{j}]"))));
+                            }
+                            s.push_str(&format!("    let {a} = {a};\n"));
+                            args.push(format!("{a}.as_ptr()"));
                         }
                         PTy::Array2D(sc, d0, d1) => {
                             s.push_str(&format!("    let mut {a}: [[{}; {d1}]; {d0}] = unsafe {{ ::std::mem::zeroed() }};\n", sc.rust()));
